@@ -122,14 +122,15 @@ def _nth_plan(rnd, st, fn, inst, full, year_every, idx):
         full["q"] -= 1
         out.append({"stream": st, "fn": fn, "args": [1] + inst + [list(range(7)), list(range(1, 16))]})
     else:
-        wds = sorted({q1, rnd.randrange(0, 7), rnd.randrange(0, 7)})
+        qe = _unit_bounds(1, _dt.date(y, m, 1))[1].weekday()
+        wds = sorted({q1, qe, rnd.randrange(0, 7)})
         out.append({"stream": st, "fn": fn, "args": [1] + inst + [wds, [1, 2, 3, 12, 13, 14, 15]]})
     y1 = _dt.date(y, 1, 1).weekday()
     if full["y"] > 0 and (rnd.random() < 0.1 or (y == 9999 and m == 1)):
         full["y"] -= 1
         out.append({"stream": st, "fn": fn, "args": [2] + inst + [list(range(7)), list(range(1, 55))]})
     elif idx % year_every == 0 or y == 9999:
-        wds = sorted({y1, rnd.randrange(0, 7)})
+        wds = sorted({y1, _dt.date(y, 12, 31).weekday(), rnd.randrange(0, 7)})
         out.append({"stream": st, "fn": fn, "args": [2] + inst + [wds, sorted({1, 2, rnd.randrange(3, 52), 52, 53, 54})]})
     return out
 
@@ -158,6 +159,13 @@ def cases(tier, seed):
         out.append({"stream": st, "fn": "d_nav", "args": [y, m, d]})
         out.append({"stream": st, "fn": "d_fl", "args": [y, m, d]})
         out += _nth_plan(rnd, st, "d_nth", [y, m, d], full_budget, year_every=1 if thorough else 2, idx=i)
+    # 29 February of every leap year: next/previous go through add_duration's day clamp (is_leap of the active backend)
+    for y in range(4, 10000, 4):
+        if calendar.isleap(y) and (thorough or y % 100 == 0 or (y + seed) % 5 == 0):
+            out.append({"stream": "feb29", "fn": "d_nav", "args": [y, 2, 29]})
+            if y % 400 == 0 or (y + seed) % 40 == 0:
+                out.append({"stream": "feb29", "fn": "t_nav", "args": [y, 2, 29, 43200000000, 1]})
+                out.append({"stream": "feb29", "fn": "d_nth", "args": [0, y, 2, 29, list(range(7)), [1, 2, 5]]})
     # DateTime in zones without transitions
     zc = _zone_codes(rnd, 12 if thorough else 4)
     tsel = dates if thorough else rnd.sample(dates, min(len(dates), 70))
@@ -197,10 +205,56 @@ def _zone_cases(tier, seed, rnd):
         pick = gaps if thorough else rnd.sample(gaps, min(len(gaps), 3))
         for g in pick:
             out += _around(zone, g, rnd, 40 if thorough else 14, "zone-skipped-midnight")
+        for g in (gaps if thorough else rnd.sample(gaps, min(len(gaps), 2))):
+            out += _enumerate_around_gap(zone, g, rnd)
     for zone in CONTROL_ZONES:
         for _ in range(40 if thorough else 10):
             g = _dt.date.fromordinal(rnd.randrange(_dt.date(1990, 1, 1).toordinal(), _dt.date(2035, 1, 1).toordinal()))
             out += _around(zone, g, rnd, 6, "zone-control")
+    return out
+
+
+def _enumerate_around_gap(zone, g, rnd):
+    """Enumerated: for the skipped-midnight day g and every target day T = g + k, k in -6..6 (k != 0: T has an ordinary
+    midnight): nth_of in the 3 units from an instance EARLIER in the unit (own day ordinary) with n = the index of T among its
+    weekday, first_of/last_of of the month on T's weekday, next/previous that cross g or stop short of it, keep_time both ways.
+    Whatever the walk crosses, the answer must be on T at exactly 00:00 (or at the kept time) unless a call site of the
+    listed finding is hit (_touched)."""
+    out = []
+    go = g.toordinal()
+
+    def z(op, d, tod, fold, u, n, wd, keep):
+        out.append({"stream": "zone-enumerated", "fn": "z",
+                    "args": [op, zone, d.year, d.month, d.day, tod, fold, u, n, 0 if wd is None else 1, wd or 0, keep]})
+    tods = [9 * 3600 * 10**6 + 30 * 60 * 10**6, 30 * 60 * 10**6]
+    for k in range(-6, 7):
+        T = _dt.date.fromordinal(go + k)
+        wd = T.weekday()
+        fold = rnd.randrange(0, 2)
+        tod = tods[(k + 6) % 2]
+        for u in (0, 1, 2):
+            lo, hi = _unit_bounds(u, T)
+            occ = _occurrences(lo, hi, wd)
+            n = occ.index(T) + 1
+            # instances: the first day of the unit, a random earlier day of the unit, a random later one
+            cands = {lo.toordinal()}
+            if T.toordinal() - 1 >= lo.toordinal():
+                cands.add(rnd.randrange(lo.toordinal(), T.toordinal()))
+            cands.add(rnd.randrange(lo.toordinal(), hi.toordinal() + 1))
+            for o in sorted(cands):
+                z(4, _dt.date.fromordinal(o), tod, fold, u, n, wd, 0)
+            if n >= 2:
+                z(4, _dt.date.fromordinal(min(cands)), tods[1 - (k + 6) % 2], 1 - fold, u, n - 1, wd, 0)
+        mlo = _dt.date(T.year, T.month, 1)
+        z(2, mlo, tod, fold, 0, 0, wd, 0)
+        z(3, mlo, tod, fold, 0, 0, wd, 0)
+        z(2, _dt.date.fromordinal(rnd.randrange(mlo.toordinal(), mlo.toordinal() + 28)), tod, 1 - fold, rnd.randrange(0, 3), 0, wd, 0)
+        z(3, _dt.date.fromordinal(rnd.randrange(mlo.toordinal(), mlo.toordinal() + 28)), tod, 1 - fold, rnd.randrange(0, 3), 0, wd, 0)
+        for keep in (0, 1):
+            # next towards T from every start 1..7 days before it, previous from 1..7 days after it
+            for j in (1, 2, 7, rnd.randrange(3, 7)):
+                z(0, _dt.date.fromordinal(T.toordinal() - j), tod, fold, 0, 0, wd, keep)
+                z(1, _dt.date.fromordinal(T.toordinal() + j), tod, fold, 0, 0, wd, keep)
     return out
 
 
@@ -249,9 +303,31 @@ def nontrivial(c):
 
 
 # ----------------------------------------------------------------------------- implementation side
+CALL_TIMEOUT_S = 10
+
+
+class _CallTimeout(Exception):
+    pass
+
+
+def _guarded(f):
+    """run one public API call under an alarm: a call that does not terminate becomes an exception (kind 14), hence a violation"""
+    import signal
+
+    def on_alarm(signum, frame):
+        raise _CallTimeout(f"no result after {CALL_TIMEOUT_S}s")
+    old = signal.signal(signal.SIGALRM, on_alarm)
+    signal.setitimer(signal.ITIMER_REAL, CALL_TIMEOUT_S)
+    try:
+        return f()
+    finally:
+        signal.setitimer(signal.ITIMER_REAL, 0)
+        signal.signal(signal.SIGALRM, old)
+
+
 def _canon_date(f):
     try:
-        r = f()
+        r = _guarded(f)
         return [0, r.year, r.month, r.day]
     except Exception as e:  # noqa
         return [1, EXC.get(type(e).__name__, 14), 0, 0]
@@ -284,7 +360,7 @@ def _tod(r):
 
 def _canon_dt(f):
     try:
-        r = f()
+        r = _guarded(f)
         return [0, r.year, r.month, r.day, _tod(r), _zcode(r)]
     except Exception as e:  # noqa
         return [1, EXC.get(type(e).__name__, 14), 0, 0, 0, 0]
@@ -389,7 +465,7 @@ def impl_run(cases):
                 op, zone, y, m, d, tod, fold, u, n, hw, wd, keep = a
                 x = _mk_dt(y, m, d, tod, zone, fold=fold)
                 try:
-                    r = _apply(x, op, u, n, wd if hw else None, keep, True)
+                    r = _guarded(lambda: _apply(x, op, u, n, wd if hw else None, keep, True))
                     out.append([0, r.year, r.month, r.day, _tod(r), r.timezone_name, x.year, x.month, x.day, _tod(x)])
                 except Exception as e:  # noqa
                     out.append([1, type(e).__name__, 0, 0, 0, "", x.year, x.month, x.day, _tod(x)])
@@ -660,28 +736,55 @@ def _judge(c, backend, r):
 
 
 def _touched(op, zone, inst, tod, u, n, wd, keep, exp):
-    """(date, time-of-day) pairs that the implementation constructs on the way (a predicate on the input only)"""
-    pts = [(inst, 0), (inst, tod)]
+    """The local times whose non-existence makes the UNCHANGED code go wrong, per call site (a predicate on the input only):
+    only these excuse a wrong answer as the listed finding; everything else must be exact.
+      next/previous : start_of("day") of the instance (unless keep_time) and every walked day up to the target at the
+                      walked time of day (a missing one is materialised one hour later and carried along);
+      first_of/last_of : the anchor the month helper works on -- the instance (month), on(y, first/last month, 1) (quarter),
+                      set(month=1|12) (year), each at the instance's time and at 00:00 -- and the target at 00:00;
+      nth_of (n != 1): the same anchors of first_of(unit), the days on which dt.next(wd) is called or lands (the unit start and
+                      the occurrences of wd up to the n-th: next() restarts with start_of("day") there, never the days in
+                      between), and the target rebuilt from self (instance's time, then 00:00)."""
+    y = inst.year
     tgt = exp[1] if exp[0] == "date" else None
+    pts = []
     if op in (0, 1):
+        if not keep:
+            pts.append((inst, 0))
         if tgt:
-            lo, hi = sorted((inst.toordinal(), tgt.toordinal()))
-            for o in range(lo, hi + 1):
-                pts += [(_dt.date.fromordinal(o), tod if keep else 0)]
+            step = 1 if op == 0 else -1
+            o = inst.toordinal()
+            while o != tgt.toordinal():
+                o += step
+                pts.append((_dt.date.fromordinal(o), tod if keep else 0))
         return pts
     lo, hi = _unit_bounds(u, inst)
-    if u == 1:
-        for mm in (lo.month, hi.month):
-            pts += [(_dt.date(inst.year, mm, 1), tod), (_dt.date(inst.year, mm, 1), 0)]
-    if u == 2:
-        for mm in (1, 12):
-            pts += [(_dt.date(inst.year, mm, inst.day), tod), (_dt.date(inst.year, mm, inst.day), 0), (_dt.date(inst.year, mm, 1), 0)]
-    pts += [(lo, 0), (_dt.date(inst.year, inst.month, 1), 0)]
+    if op in (2, 3) or (op == 4 and n == 1):
+        first = op != 3
+        if u == 0:
+            anchor = inst
+        elif u == 1:
+            anchor = _dt.date(y, lo.month if first else hi.month, 1)
+            pts.append((anchor, tod))
+        else:
+            anchor = _dt.date(y, 1 if first else 12, inst.day)
+            pts.append((anchor, tod))
+        pts.append((anchor, 0))
+        if tgt:
+            pts.append((tgt, 0))
+        return pts
+    if u == 0:
+        pts += [(inst, 0), (lo, 0)]
+    elif u == 1:
+        pts += [(_dt.date(y, hi.month, 1), tod), (lo, tod), (lo, 0)]
+    else:
+        pts += [(_dt.date(y, 1, inst.day), tod), (_dt.date(y, 1, inst.day), 0), (lo, 0)]
+    first_occ = lo.toordinal() + (wd - lo.weekday()) % 7
+    for i in range(max(n, 0)):
+        if first_occ + 7 * i <= MAXORD:
+            pts.append((_dt.date.fromordinal(first_occ + 7 * i), 0))
     if tgt:
-        pts += [(tgt, 0), (tgt, tod)]
-    if op == 4 and n >= 2:
-        for o in range(lo.toordinal(), lo.toordinal() + 7 * n + 8):
-            pts.append((_dt.date.fromordinal(o), 0))
+        pts += [(tgt, tod), (tgt, 0)]
     return pts
 
 
